@@ -221,7 +221,13 @@ Build(s, c, t, fc, ac, epx) ==
               \cup (IF entryParsed /\ D = "none" THEN {"d-unresolved"} ELSE {})
               \cup (IF didxParsed /\ LIB = "none" THEN {"lib-unresolved"} ELSE {})
               \cup (IF sideFx THEN {"ignored-bare-import"} ELSE {})
-      res == [mods |-> {Eff(p) : p \in Loaded \ Dropped}, diag |-> diag]
+      \* a build with errors produces no output files: only diagnostics remain observable
+      parseErrs == {p \in Loaded : Used(p).c = "bad"}
+      failed == (diag \ {"ignored-bare-import"}) # {} \/ parseErrs # {}
+      res == [mods |-> IF failed THEN {<<p, "bad">> : p \in parseErrs}
+                                       \cup {<<p, "warn", Used(p).o.mt>> : p \in {q \in Loaded \cap {"cjs"} : Used(q).o.mt = "module"}}
+                       ELSE {Eff(p) : p \in Loaded \ Dropped},
+              diag |-> diag]
       \* --- watch predicates (fs_real.go) and observations
       Pres(dir, name, b) == [t |-> "present", p |-> dir, n |-> name, b |-> b, c |-> "", mk |-> NoKey]
       DirR(p, b) == [t |-> "dirreadable", p |-> p, n |-> "", b |-> b, c |-> "", mk |-> NoKey]
